@@ -125,6 +125,13 @@ Theorem C02_deadline_error_sound : forall k env n,
   tw_run (TW0 k) env = Some (TDeadline, n) -> n = (k + 2)%nat.
 Proof. exact tw_deadline_sound. Qed.
 
+(* the deadline is absolute (the k of [TW0 k] only counts down).  Contrast: an implementation that
+   restarts its timer whenever it wakes on a re-armed group ([twr_step]) has NO bound - for every
+   n there are n memories (release + re-arm cycles) under which it gives no answer *)
+Theorem C02_deadline_restart_unbounded : forall k0 n, exists env,
+  List.length env = n /\ twr_run (S k0) (TW1 1 (S k0)) env = None.
+Proof. exact twr_unbounded. Qed.
+
 (* on the reachable memories of the wait group: with a non-zero count (others standing still)
    the answer is the deadline's error at the deadline; with count zero it is nil at once *)
 Theorem C02_deadline_positive_count : forall progs sched k bits,
@@ -198,6 +205,7 @@ Print Assumptions C02_denoted.
 Print Assumptions C02_deadline_honoured.
 Print Assumptions C02_deadline_nil_sound.
 Print Assumptions C02_deadline_error_sound.
+Print Assumptions C02_deadline_restart_unbounded.
 Print Assumptions C02_deadline_positive_count.
 Print Assumptions C02_deadline_zero_count.
 Print Assumptions C02_any_source.
